@@ -86,3 +86,62 @@ def pair_tab_api(model, wrap=None, target=None):
   cls = getattr(pair_tabulation, PAIR_CLASSES[target])
   pots = pair_potentials_api(model, wrap)
   return cls(pots, float(model["tab"]["cutoff"]), int(model["tab"]["nr"]))
+
+
+# ------------------------------------------------------------------ EAM through the API
+
+def eam_api_objects(model, wrap=None):
+  """(pair Potential list, EAMPotential list in element order[, dipoles, quadrupoles])
+  composed through the Python API.  Undeclared FS densities are given explicit zero
+  functions (the API requires complete dictionaries)."""
+  import spec
+  from atsim.potentials import Potential, EAMPotential
+  from atsim.potentials import potentialforms as pf
+  tables = model.get("tables")
+  order = spec.eam_element_order(model)
+  emb = {a: n for a, n in model["embed"]}
+
+  def mk(node, tag):
+    f = emit.api_callable(node, tables)
+    return wrap(f, tag) if wrap else f
+
+  eams = []
+  for s in order:
+    Z, mass, _ex, a0, lat = spec.eam_expected_metadata(model, s)
+    if Z is None:
+      Z = 1
+    if mass is None:
+      mass = 1.0
+    ef = mk(emb.get(s, spec.ZERO), ("embed", s))
+    if model["type"] == "fs":
+      dd = {}
+      for b in order:
+        node = spec.ZERO
+        for ent in model["density"]:
+          if ent[0] == s and ent[1] == b:
+            node = ent[2]
+        dd[b] = mk(node, ("dens", s, b))
+      df = dd
+    else:
+      node = spec.ZERO
+      for ent in model["density"]:
+        if ent[0] == s:
+          node = ent[1]
+      df = mk(node, ("dens", s))
+    eams.append(EAMPotential(s, Z, mass, ef, df, a0, lat))
+
+  def pots(key):
+    return [Potential(a, b, mk(n, (key, a, b))) for a, b, n in model.get(key) or []]
+
+  out = [pots("pair"), eams]
+  if model["type"] == "adp":
+    out += [pots("dipole"), pots("quadrupole")]
+  return out
+
+
+def eam_tab_api(model, wrap=None):
+  from atsim.potentials import eam_tabulation
+  cls = getattr(eam_tabulation, EAM_CLASSES[model["target"]])
+  objs = eam_api_objects(model, wrap)
+  t = model["tab"]
+  return cls(*objs, float(t["cutoff"]), int(t["nr"]), float(t["cutoff_rho"]), int(t["nrho"]))
